@@ -44,9 +44,11 @@ fn main() {
     let seed: u64 = std::env::var("VERIF_SEED").ok().and_then(|s| s.parse().ok()).unwrap_or(1);
     let r = match id {
         "C01" => go(props::c01::C01, tier, seed, &replay),
+        "C02" => go(props::c02::C02, tier, seed, &replay),
         "C03" => go(props::c03::C03, tier, seed, &replay),
         "C04" => go(props::c04::C04, tier, seed, &replay),
         "C05" => go(props::c05::C05, tier, seed, &replay),
+        "C06" => go(props::c06::C06, tier, seed, &replay),
         "C07" => go(props::c07::C07, tier, seed, &replay),
         "C12" => go(props::c12::C12, tier, seed, &replay),
         "C13" => go(props::c13::C13, tier, seed, &replay),
